@@ -386,6 +386,18 @@ func genExtracted(b *strings.Builder, root, authp, httpio *pkg) {
 	w("Definition callsites_reverseClientBuilder : list string := %s.", strList(callSites(root, "reverseClientBuilder")))
 	w("Definition handleWS_builder_call : string := %s.", coqStr(builderCall(root)))
 	w("Definition client_handler_setup : list string := %s.", strList(assignsIn(root, "websocketClient", []string{"sc.methodNameFormatter", "h.aliasedMethods"})))
+	w("(* error transport: decision skeletons of createError / JSONRPCError.val / Error, pre-registered client codes *)")
+	w("Definition createError_decisions : list string := %s.", strList(decisionOrder(root, "handler", "createError")))
+	w("Definition createError_default_code : Z := %s.", coqZ(localInit(root, "handler", "createError", "code")))
+	w("Definition val_decisions : list string := %s.", strList(decisionOrder(root, "JSONRPCError", "val")))
+	w("Definition error_string_decisions : list string := %s.", strList(decisionOrder(root, "JSONRPCError", "Error")))
+	{
+		var ks []string
+		for _, k := range literalKeys(root, "NewErrors", "byCode") {
+			ks = append(ks, coqZ(k))
+		}
+		w("Definition newErrors_byCode_keys : list Z := [%s].", strings.Join(ks, "; "))
+	}
 	w("(* keepalive *)")
 	w("Definition nextMessage_resets_before_read : bool := %s.", coqBool(callBefore(root, "nextMessage", "c.resetReadDeadline", "c.conn.NextReader")))
 	w("Definition ping_handler_answers_pong : bool := %s.", coqBool(pingHandlerPongs(root)))
@@ -859,6 +871,81 @@ func defaultOf(p *pkg, fn, field string) int64 {
 	})
 	if !found {
 		die("default %s.%s not found", fn, field)
+	}
+	return val
+}
+
+// decision skeleton of a function: type-switch case types and if/else-if conditions, in source order
+func decisionOrder(p *pkg, recv, fn string) []string {
+	fd := p.funcDecl(recv, fn)
+	if fd == nil {
+		die("%s.%s not found", recv, fn)
+	}
+	var out []string
+	ast.Inspect(fd.Body, func(n ast.Node) bool {
+		switch v := n.(type) {
+		case *ast.TypeSwitchStmt:
+			for _, c := range v.Body.List {
+				cc := c.(*ast.CaseClause)
+				for _, t := range cc.List {
+					out = append(out, "case "+exprString2(t))
+				}
+				if cc.List == nil {
+					out = append(out, "default")
+				}
+			}
+		case *ast.IfStmt:
+			out = append(out, "if "+exprString2(v.Cond))
+		}
+		return true
+	})
+	return out
+}
+
+// keys of the composite literal assigned to `field` in function fn (NewErrors' pre-registered codes)
+func literalKeys(p *pkg, fn, field string) []int64 {
+	fd := p.anyFunc(fn)
+	if fd == nil {
+		die("%s not found", fn)
+	}
+	var out []int64
+	ast.Inspect(fd.Body, func(n ast.Node) bool {
+		kv, ok := n.(*ast.KeyValueExpr)
+		if !ok {
+			return true
+		}
+		if id, ok := kv.Key.(*ast.Ident); !ok || id.Name != field {
+			return true
+		}
+		if cl, ok := kv.Value.(*ast.CompositeLit); ok {
+			for _, e := range cl.Elts {
+				if ekv, ok := e.(*ast.KeyValueExpr); ok {
+					out = append(out, p.evalInt(ekv.Key))
+				}
+			}
+		}
+		return false
+	})
+	return out
+}
+
+// initial value of `var name T = v` inside fn
+func localInit(p *pkg, recv, fn, name string) int64 {
+	fd := p.funcDecl(recv, fn)
+	if fd == nil {
+		die("%s.%s not found", recv, fn)
+	}
+	var val int64
+	found := false
+	ast.Inspect(fd.Body, func(n ast.Node) bool {
+		if vs, ok := n.(*ast.ValueSpec); ok && len(vs.Names) == 1 && vs.Names[0].Name == name && len(vs.Values) == 1 {
+			val = p.evalInt(vs.Values[0])
+			found = true
+		}
+		return true
+	})
+	if !found {
+		die("local %s not found in %s", name, fn)
 	}
 	return val
 }
